@@ -931,9 +931,13 @@ class Machine:
         c = st.pick(classes, "invalid-class")
         d = {"class": c}
         if c == "ctor-mismatched-lengths":
-            k = st.draw(1, 3)
-            d["call"] = lambda wv: W(np.arange(n + k, dtype=float), np.asarray(y, dtype=float))
-            d["text"] = f"Weaver(x of length {n + k}, y of length {n})"
+            k = st.draw(1, 3) * (1 if st.coin(1, 2, "longer") else -1)
+            m = max(1, n + k)
+            xf, yf = st.pick(("array", "list"), "x-form"), st.pick(("array", "list"), "y-form")
+            xa = np.arange(m, dtype=float) if xf == "array" else [float(i) for i in range(m)]
+            ya = np.asarray(y, dtype=float) if yf == "array" else [float(v) for v in y]
+            d["call"] = lambda wv: W(xa, ya)
+            d["text"] = f"Weaver(x {xf} of length {m}, y {yf} of length {n})"
         elif c == "ctor-not-Nx2":
             shape = st.pick(((n, 3), (n,), (n, 2, 1), (2, n + 1), (n, 1)), "shape")
             d["call"] = lambda wv: W.from_2d_array(np.zeros(shape))
@@ -942,8 +946,14 @@ class Machine:
             s = st.pick(STRATEGIES, "strategy")
             k = st.pick((1, 0, -1, 1.5, -3), "n")
             cls = getattr(self.rfa_mod, s)
-            d["call"] = lambda wv: wv.recreate_from_average(k, rfa_class=cls)
-            d["text"] = f"recreate_from_average({k}, rfa_class={s})"
+            kw = {}
+            if s in ("LinearFixedRFA", "LinearAdaptiveRFA", "ExpFixedRFA", "ExpAdaptiveRFA") and st.coin(1, 2, "with-params"):
+                kw = st.pick(({"alpha": 0.5}, {"a": 2}, {"alpha": 1.0, "a": None}), "params")
+                if s.startswith("Exp") and st.coin(1, 2, "beta"):
+                    kw = dict(kw, beta=0.3, exp=1.5)
+            k = st.pick((k, np.float64(k), np.int64(k) if float(k).is_integer() else k), "n-type")
+            d["call"] = lambda wv: wv.recreate_from_average(k, rfa_class=cls, **kw)
+            d["text"] = f"recreate_from_average({k!r}, rfa_class={s}{''.join(', %s=%r' % kv for kv in kw.items())})"
         elif c == "interpolate-unknown-method":
             mth = st.pick(("quadratic", "nearest", "", "Linear", "cubic "), "method")
             if st.coin(1, 2):
@@ -1025,6 +1035,8 @@ class Machine:
             bogus = float((x[i] + x[i + 1]) / 2)
             k = st.draw(0, 2, "which")
             args = (bogus, None) if k == 0 else ((None, bogus) if k == 1 else (float(x[-1]) + 1.0, None))
+            if st.coin(1, 3, "with-step"):
+                args = args + (st.draw(1, 3, "step"),)
             d["call"] = lambda wv: wv.slice_by_value(*args)
             d["text"] = f"slice_by_value{args}"
         elif c == "unknown-dataset":
@@ -1054,6 +1066,12 @@ class Machine:
             d["call"] = lambda wv: wv.integral_match(**kw)
             d["text"] = "integral_match(" + ", ".join(f"{k}={(v if not isinstance(v, list) else '<valid, %d>' % len(v))!r}"
                                                       for k, v in kw.items()) + ")"
+        elif c == "match-fixed-points-not-samples" and st.coin(1, 4, "by-index"):
+            idx = [int(i) for i in np.searchsorted(x, rx)]
+            idx[st.draw(0, len(idx) - 1, "which")] = n + st.draw(0, 50, "beyond")      # designates no sample at all
+            idx = sorted(idx)
+            d["call"] = lambda wv: wv.integral_match(fixed_points_indices_in_x=idx)
+            d["text"] = f"integral_match(fixed_points_indices_in_x containing {idx[-1]} >= len(x) = {n})"
         elif c == "match-fixed-points-not-samples":
             pts = [float(v) for v in rx]
             i = st.draw(0, len(pts) - 1, "which")
